@@ -162,6 +162,62 @@ def work_b(bound):
   return n, bad[:5]
 
 
+def cross_run(policy):
+  """two runs alive at once, one thread logging through each run's record
+  logger; every statement of openhtf/util/logs.py is a scheduling point (the
+  handler filters run before any lock is taken)"""
+  from vf import sched
+  from openhtf.core import test_record
+  from openhtf.util import logs
+  s = sched.Sched(policy=policy, max_steps=40000, quiet_logging=False, trace_files=('openhtf/util/logs.py',))
+  box = {}
+
+  def main():
+    lg = logging.getLogger('openhtf')
+    for h in list(lg.handlers):
+      if isinstance(h, logs.RecordHandler):
+        lg.removeHandler(h)
+    ra = test_record.TestRecord(dut_id=None, station_id='s')
+    rb = test_record.TestRecord(dut_id=None, station_id='s')
+    ua, ub = UID['ab'], UID['abc']
+    logs.initialize_record_handler(ua, ra, lambda: None)
+    logs.initialize_record_handler(ub, rb, lambda: None)
+    la, lb = logs.get_record_logger_for(ua), logs.get_record_logger_for(ub)
+
+    def run(lgr, tag):
+      for i in (1, 2):
+        lgr.warning('%s%d', tag, i)
+    ths = [threading.Thread(target=run, args=(la, 'A'), name='A'), threading.Thread(target=run, args=(lb, 'B'), name='B')]
+    for t in ths:
+      t.start()
+    for t in ths:
+      t.join()
+    box['a'] = [r.message for r in ra.log_records]
+    box['b'] = [r.message for r in rb.log_records]
+    logs.remove_record_handler(ua)
+    logs.remove_record_handler(ub)
+  s.run(main)
+  return s, box
+
+
+def work_x(args):
+  sys.argv = sys.argv[:1]
+  bound, root, maxruns = args
+  from vf import explore
+  import openhtf  # noqa: F401
+  n, bad = 0, []
+  for picks, decisions, box, failure in explore.explore(cross_run, bound, max_runs=maxruns, root=root):
+    n += 1
+    if failure is not None:
+      bad.append(('logging threads never finish (%s)' % type(failure).__name__, dict(scenario='cross', schedule=picks)))
+    elif box['a'] != ['A1', 'A2'] or box['b'] != ['B1', 'B2']:
+      sig = ('a message logged through another test\'s loggers appears in this run\'s record'
+             if any(m.startswith('B') for m in box['a']) or any(m.startswith('A') for m in box['b'])
+             else 'a run\'s own log messages were not captured exactly once in order')
+      bad.append((sig, dict(scenario='cross', schedule=picks, a=box['a'], b=box['b'])))
+  return n, bad[:5]
+
+
 # ----------------------------------------------------------------------
 def whole(seed, concurrent):
   from vf import build, sched
@@ -346,6 +402,18 @@ def main(chk):
     for sig, det in bad:
       chk.violation(sig, det)
     chk.log('handler-walk schedules: %d' % n)
+    from vf import explore
+    roots = explore.split_roots(cross_run, 1 if quick else 2, 6)
+    per = max(50, (6000 if quick else 150000) // max(1, len(roots)))
+    tot = 0
+    for n, bad in pool.map(work_x, [(1 if quick else 2, r, per) for r in roots], chunksize=1):
+      tot += n
+      for sig, det in bad:
+        chk.violation(sig, det)
+    chk.traces += tot
+    chk.nontrivial += tot
+    chk.tlc_runs.append(dict(name='dfs two runs logging concurrently (statement-level scheduling points in logs.py)', schedules=tot))
+    chk.log('cross-run logging schedules: %d' % tot)
     ns = 40 if quick else 600
     jobs = [([chk.seed * 1000 + i for i in range(k, ns, 7)], True) for k in range(7)]
     jobs += [([chk.seed * 1000 + i for i in range(3)], False)]
@@ -359,7 +427,7 @@ def main(chk):
     for sig, det in bad:
       chk.violation(sig, det)
   chk.cov['rule'] = ('histories of <=5 start/end/log operations over 2 prefix-related uids x 10 logger names (TLC-enumerated); all interleavings with <=2 (3) preemptions of a framework log call vs handler removal; '
-                     'seeded random schedules of two concurrent whole runs; 11 redaction shapes')
+                     'two threads logging through two live runs with every statement of logs.py a scheduling point (<=1 / 2 preemptions); seeded random schedules of two concurrent whole runs; 11 redaction shapes')
   chk.assumptions += ['uids contain no "." (make_uid never produces one)',
                       'the locks of logging are scheduling points in the handler-walk exploration']
   return chk.finish(explanation='Logs.tla / LogsWalk.tla checked by TLC; emitted histories replayed on the real logs functions; real '
